@@ -72,71 +72,81 @@ theorem scanTag_ident {e : List Char} (he : headOk e = true) (b : Bool) {c : Cha
     have hp : c ≠ '+' := by rintro rfl; revert hc; decide
     simp [scanTag, identCont_not_asciiWs hcc, hm, hp, startsWith_cons_ne _ _ hne, hc]
 
-theorem scanTag_end {e : List Char} (he : headOk e = true) (m : Mark) (x : List Char) :
-    scanTag e false (m.src ++ (e ++ x)) = some (m.src.length + e.length, m.ws) := by
+theorem scanTag_end {e : List Char} (he : headOk e = true) (b : Bool) (m : Mark) (x : List Char) :
+    scanTag e b (m.src ++ (e ++ x)) = some (m.src.length + e.length, m.ws) := by
   obtain ⟨h, t, rfl, h1, h2, h3, h4⟩ := headOk_cons he
   have hs : startsWith (h :: t) (h :: t ++ x) = true := startsWith_append_self _ _
   have hs' : startsWith (h :: t) (h :: (t ++ x)) = true := by simpa using hs
+  have i1 : isIdentCont '-' = false := by decide
+  have i2 : isIdentCont '+' = false := by decide
   cases m with
-  | none => simp [Mark.src, Mark.ws, scanTag, h1, h3, h4, hs']
+  | none => simp [Mark.src, Mark.ws, scanTag, h1, h2, h3, h4, hs']
   | minus =>
-    simp only [Mark.src, Mark.ws, List.cons_append, List.nil_append, scanTag, Bool.false_and]
+    simp only [Mark.src, Mark.ws, List.cons_append, List.nil_append, scanTag, i1, Bool.and_false]
     simp [isAsciiWs, hs']
   | plus =>
-    simp only [Mark.src, Mark.ws, List.cons_append, List.nil_append, scanTag, Bool.false_and]
+    simp only [Mark.src, Mark.ws, List.cons_append, List.nil_append, scanTag, i2, Bool.and_false]
     simp [isAsciiWs, hs']
 
-theorem scanTag_varBody {e : List Char} (he : headOk e = true) (m : Mark) (x : List Char) :
-    scanTag e false (varBody ++ (m.src ++ (e ++ x))) = some (varBody.length + m.src.length + e.length, m.ws) := by
-  simp only [varBody, List.cons_append, List.nil_append]
-  rw [scanTag_ws _ _ _ (by decide), scanTag_ident he _ _ (by decide), scanTag_ws _ _ _ (by decide),
-    scanTag_end he m x]
-  simp [bump]; omega
-
-theorem scanTag_word {e : List Char} (he : headOk e = true) (w : Word) (m : Mark) (x : List Char) :
-    scanTag e false (w.src ++ (m.src ++ (e ++ x))) = some (w.src.length + m.src.length + e.length, m.ws) := by
-  have hend := scanTag_end he m x
-  cases w with
-  | ifT =>
-    simp only [Word.src, List.cons_append, List.nil_append]
-    rw [scanTag_ws _ _ _ (by decide), scanTag_ident he _ _ (by decide), scanTag_ident he _ _ (by decide),
-      scanTag_ws _ _ _ (by decide), scanTag_ident he _ _ (by decide), scanTag_ws _ _ _ (by decide), hend]
+theorem scanTag_varBody {e : List Char} (he : headOk e = true) (tight : Bool) (m : Mark) (x : List Char) :
+    scanTag e false (varBody tight ++ (m.src ++ (e ++ x))) =
+      some ((varBody tight).length + m.src.length + e.length, m.ws) := by
+  cases tight with
+  | false =>
+    simp only [varBody, pad, Bool.false_eq_true, if_false, List.cons_append, List.nil_append]
+    rw [scanTag_ws _ _ _ (by decide), scanTag_ident he _ _ (by decide), scanTag_ws _ _ _ (by decide),
+      scanTag_end he false m x]
     simp [bump]; omega
-  | endif =>
-    simp only [Word.src, List.cons_append, List.nil_append]
+  | true =>
+    simp only [varBody, pad, if_true, List.cons_append, List.nil_append]
+    rw [scanTag_ident he _ _ (by decide), scanTag_end he true m x]
+    simp [bump]; omega
+
+theorem scanTag_word {e : List Char} (he : headOk e = true) (w : Word) (tight : Bool) (m : Mark)
+    (x : List Char) :
+    scanTag e false (w.src tight ++ (m.src ++ (e ++ x))) =
+      some ((w.src tight).length + m.src.length + e.length, m.ws) := by
+  cases w <;> cases tight
+  · simp only [Word.src, Word.core, pad, Bool.false_eq_true, if_false, List.cons_append, List.nil_append]
+    rw [scanTag_ws _ _ _ (by decide), scanTag_ident he _ _ (by decide), scanTag_ident he _ _ (by decide),
+      scanTag_ws _ _ _ (by decide), scanTag_ident he _ _ (by decide), scanTag_ws _ _ _ (by decide),
+      scanTag_end he false m x]
+    simp [bump]; omega
+  · simp only [Word.src, Word.core, pad, if_true, List.cons_append, List.nil_append, List.append_nil]
+    rw [scanTag_ident he _ _ (by decide), scanTag_ident he _ _ (by decide),
+      scanTag_ws _ _ _ (by decide), scanTag_ident he _ _ (by decide), scanTag_end he true m x]
+    simp [bump]; omega
+  · simp only [Word.src, Word.core, pad, Bool.false_eq_true, if_false, List.cons_append, List.nil_append]
     rw [scanTag_ws _ _ _ (by decide), scanTag_ident he _ _ (by decide), scanTag_ident he _ _ (by decide),
       scanTag_ident he _ _ (by decide), scanTag_ident he _ _ (by decide), scanTag_ident he _ _ (by decide),
-      scanTag_ws _ _ _ (by decide), hend]
+      scanTag_ws _ _ _ (by decide), scanTag_end he false m x]
+    simp [bump]; omega
+  · simp only [Word.src, Word.core, pad, if_true, List.cons_append, List.nil_append, List.append_nil]
+    rw [scanTag_ident he _ _ (by decide), scanTag_ident he _ _ (by decide),
+      scanTag_ident he _ _ (by decide), scanTag_ident he _ _ (by decide), scanTag_ident he _ _ (by decide),
+      scanTag_end he true m x]
     simp [bump]; omega
 
 /-! ### comments -/
 
-theorem findSub_skip {a c : Char} (p r : List Char) (h : a ≠ c) :
-    findSub (a :: p) (c :: r) = (findSub (a :: p) r).map (· + 1) := by
-  simp [findSub, startsWith_cons_ne _ _ h]
+theorem findSub_here (p x : List Char) (hp : p ≠ []) : findSub p (p ++ x) = some 0 := by
+  cases p with
+  | nil => exact absurd rfl hp
+  | cons a p =>
+    have := startsWith_append_self (a :: p) x
+    simp only [List.cons_append] at this ⊢
+    simp [findSub, this]
 
-theorem findSub_here (a : Char) (p x : List Char) : findSub (a :: p) (a :: p ++ x) = some 0 := by
-  have := startsWith_append_self (a :: p) x
-  simp only [List.cons_append] at this ⊢
-  simp [findSub, this]
-
-theorem findSub_comment {e : List Char} (he : headOk e = true) (m : Mark) (x : List Char) :
-    findSub e (commentBody ++ (m.src ++ (e ++ x))) = some (commentBody.length + m.src.length) := by
-  obtain ⟨h, t, rfl, h1, h2, h3, h4⟩ := headOk_cons he
-  have n1 : h ≠ ' ' := by rintro rfl; revert h1; decide
-  have n2 : h ≠ 'c' := by rintro rfl; revert h2; decide
-  simp only [commentBody, List.cons_append, List.nil_append]
-  rw [findSub_skip _ _ n1, findSub_skip _ _ n2, findSub_skip _ _ n1]
-  cases m with
-  | none =>
-    simp only [Mark.src, List.nil_append]
-    rw [show h :: (t ++ x) = h :: t ++ x from rfl, findSub_here]; rfl
-  | minus =>
-    simp only [Mark.src, List.cons_append, List.nil_append]
-    rw [findSub_skip _ _ h3, show h :: (t ++ x) = h :: t ++ x from rfl, findSub_here]; rfl
-  | plus =>
-    simp only [Mark.src, List.cons_append, List.nil_append]
-    rw [findSub_skip _ _ h4, show h :: (t ++ x) = h :: t ++ x from rfl, findSub_here]; rfl
+/-- the first occurrence of the comment end is behind a body that does not contain it -/
+theorem findSub_body (e : List Char) (he : e ≠ []) (b x : List Char) (h : noPatIn e b (e ++ x) = true) :
+    findSub e (b ++ (e ++ x)) = some b.length := by
+  induction b with
+  | nil => simpa using findSub_here e x he
+  | cons a b ih =>
+    simp only [noPatIn, Bool.and_eq_true, Bool.not_eq_true'] at h
+    have h1 : startsWith e (a :: (b ++ (e ++ x))) = false := h.1
+    simp only [List.cons_append, findSub, h1, Bool.false_eq_true, if_false, ih h.2]
+    rfl
 
 /-! ### raw blocks -/
 
@@ -155,30 +165,35 @@ theorem takeMarker_mark_end {e : List Char} (he : headOk e = true) (m : Mark) (x
   obtain ⟨h, t, rfl, _, _, h3, h4⟩ := headOk_cons he
   cases m <;> simp [takeMarker, Mark.src, Mark.ws, h3, h4]
 
+theorem dropWhile_asciiWs_pad (tight : Bool) (y : List Char) :
+    (pad tight ++ y).dropWhile isAsciiWs = y.dropWhile isAsciiWs := by
+  cases tight <;> simp [pad, List.dropWhile_cons, ws_space]
+
 /-- `skip_basic_tag` once the optional marker in front has been dealt with: blanks, the name,
     blanks, marker, end delimiter -/
-theorem skipBasicTag_core {e : List Char} (he : headOk e = true) (s name : List Char) (b : Bool)
+theorem skipBasicTag_core {e : List Char} (he : headOk e = true) (s name : List Char) (b tight : Bool)
     (m : Mark) (x : List Char)
-    (hp2 : (stripMarkerIf b s).dropWhile isAsciiWs = name ++ (' ' :: (m.src ++ (e ++ x)))) :
+    (hp2 : (stripMarkerIf b s).dropWhile isAsciiWs = name ++ (pad tight ++ (m.src ++ (e ++ x)))) :
     skipBasicTag s name e b = some (s.length - x.length, m.ws) := by
   unfold skipBasicTag
   simp only [hp2, startsWith_append_self, if_true, List.drop_left]
-  simp only [List.dropWhile_cons, ws_space, if_true, dropWhile_asciiWs_mark_end he, takeMarker_mark_end he,
+  simp only [dropWhile_asciiWs_pad, dropWhile_asciiWs_mark_end he, takeMarker_mark_end he,
     startsWith_append_self]
   simp
 
-theorem skipBasicTag_raw {e : List Char} (he : headOk e = true) (m : Mark) (x : List Char) :
-    skipBasicTag (rawBody ++ (m.src ++ (e ++ x))) rawName e false =
-      some (rawBody.length + m.src.length + e.length, m.ws) := by
-  rw [skipBasicTag_core he _ rawName false m x
-    (by simp [stripMarkerIf, rawBody, rawName, List.dropWhile_cons, isAsciiWs])]
+theorem skipBasicTag_raw {e : List Char} (he : headOk e = true) (tight : Bool) (m : Mark) (x : List Char) :
+    skipBasicTag (rawBody tight ++ (m.src ++ (e ++ x))) rawName e false =
+      some ((rawBody tight).length + m.src.length + e.length, m.ws) := by
+  rw [skipBasicTag_core he _ rawName false tight m x
+    (by cases tight <;> simp [stripMarkerIf, rawBody, pad, rawName, List.dropWhile_cons, isAsciiWs])]
   simp; omega
 
-theorem skipBasicTag_endraw {e : List Char} (he : headOk e = true) (l2 m : Mark) (x : List Char) :
-    skipBasicTag (l2.src ++ (endrawBody ++ (m.src ++ (e ++ x)))) endrawName e true =
-      some (l2.src.length + endrawBody.length + m.src.length + e.length, m.ws) := by
-  rw [skipBasicTag_core he _ endrawName true m x
-    (by cases l2 <;> simp [stripMarkerIf, Mark.src, endrawBody, endrawName, List.dropWhile_cons, isAsciiWs])]
+theorem skipBasicTag_endraw {e : List Char} (he : headOk e = true) (tight : Bool) (l2 m : Mark) (x : List Char) :
+    skipBasicTag (l2.src ++ (endrawBody tight ++ (m.src ++ (e ++ x)))) endrawName e true =
+      some (l2.src.length + (endrawBody tight).length + m.src.length + e.length, m.ws) := by
+  rw [skipBasicTag_core he _ endrawName true tight m x
+    (by cases l2 <;> cases tight <;>
+      simp [stripMarkerIf, Mark.src, endrawBody, pad, endrawName, List.dropWhile_cons, isAsciiWs])]
   simp; omega
 
 theorem startOk_cons {s : List Char} (h : startOk s = true) : ∃ c r, s = c :: r ∧ isWs c = false := by
@@ -190,30 +205,30 @@ theorem map_succ_some {α : Type} (a : Nat) (b : α) :
     (some (a, b)).map (fun (x : Nat × α) => (x.1 + 1, x.2)) = some (a + 1, b) := rfl
 
 /-- the closing tag of a raw block is found right after content that is free of block starts -/
-theorem findEndraw_content {d : Delims} (g : Good d) (c : List Char) (l2 m : Mark) (x : List Char)
-    (hfree : noBsIn d c (d.bs ++ (l2.src ++ (endrawBody ++ (m.src ++ (d.be ++ x))))) = true) :
-    findEndraw d 0 (c ++ (d.bs ++ (l2.src ++ (endrawBody ++ (m.src ++ (d.be ++ x)))))) =
-      some (c.length, d.bs.length + (l2.src.length + endrawBody.length + m.src.length + d.be.length),
+theorem findEndraw_content {d : Delims} (g : Good d) (c : List Char) (tight : Bool) (l2 m : Mark) (x : List Char)
+    (hfree : noBsIn d c (d.bs ++ (l2.src ++ (endrawBody tight ++ (m.src ++ (d.be ++ x))))) = true) :
+    findEndraw d 0 (c ++ (d.bs ++ (l2.src ++ (endrawBody tight ++ (m.src ++ (d.be ++ x)))))) =
+      some (c.length, d.bs.length + (l2.src.length + (endrawBody tight).length + m.src.length + d.be.length),
         l2.ws, m.ws) := by
   induction c with
   | nil =>
     obtain ⟨b0, bs', hbs, _⟩ := startOk_cons g.bs
-    have hsw : startsWith d.bs (d.bs ++ (l2.src ++ (endrawBody ++ (m.src ++ (d.be ++ x))))) = true :=
+    have hsw : startsWith d.bs (d.bs ++ (l2.src ++ (endrawBody tight ++ (m.src ++ (d.be ++ x))))) = true :=
       startsWith_append_self _ _
     simp only [List.nil_append, List.length_nil]
-    generalize hF : d.bs ++ (l2.src ++ (endrawBody ++ (m.src ++ (d.be ++ x)))) = F at hsw
-    have hF2 : F = b0 :: (bs' ++ (l2.src ++ (endrawBody ++ (m.src ++ (d.be ++ x))))) := by
+    generalize hF : d.bs ++ (l2.src ++ (endrawBody tight ++ (m.src ++ (d.be ++ x)))) = F at hsw
+    have hF2 : F = b0 :: (bs' ++ (l2.src ++ (endrawBody tight ++ (m.src ++ (d.be ++ x))))) := by
       rw [← hF, hbs]; rfl
-    have hdrop : F.drop d.bs.length = l2.src ++ (endrawBody ++ (m.src ++ (d.be ++ x))) := by
+    have hdrop : F.drop d.bs.length = l2.src ++ (endrawBody tight ++ (m.src ++ (d.be ++ x))) := by
       rw [← hF, List.drop_left]
     rw [hF2] at hsw hdrop ⊢
     unfold findEndraw
     simp only [hsw, if_true, hdrop, skipBasicTag_endraw g.be]
-    cases l2 <;> simp [Mark.src, Mark.ws, endrawBody, wsOfChar]
+    cases l2 <;> cases tight <;> simp [Mark.src, Mark.ws, endrawBody, pad, endrawName, wsOfChar]
   | cons a c ih =>
     simp only [noBsIn, Bool.and_eq_true, Bool.not_eq_true'] at hfree
     simp only [List.cons_append, List.length_cons]
-    have h1 : startsWith d.bs (a :: (c ++ (d.bs ++ (l2.src ++ (endrawBody ++ (m.src ++ (d.be ++ x))))))) = false :=
+    have h1 : startsWith d.bs (a :: (c ++ (d.bs ++ (l2.src ++ (endrawBody tight ++ (m.src ++ (d.be ++ x))))))) = false :=
       hfree.1
     unfold findEndraw
     simp only [h1, Bool.false_eq_true, if_false, ih hfree.2]
